@@ -212,7 +212,7 @@ def run(tier: str, seed: int, rep: Report, model: Model) -> dict:
             if o.get("input_dict_untouched") is False:
                 rep.violation({"what": "model_validate modified the caller's dict", "step": i, **rec})
             ref = GC.reference({"params": [{"name": f["name"], "hint": f["hint"]} for f in h["fields"]], "args": op["values"], "provider": None})
-            if o["v"] == "accept" and ref["v"] != "accept":
+            if o["v"] == "accept" and ref["v"] not in ("accept", "unknown"):
                 rep.violation({"what": "a validation was accepted although the fields are inconsistent (in field order, fresh context)", "step": i, "reference": ref, **rec})
             elif ref["v"] == "accept" and o["v"] != "accept":
                 rep.violation({"what": "a conforming validation was rejected (state shared between validations?)", "step": i, "got": o, "reference": ref, **rec})
